@@ -541,6 +541,39 @@ func (x *Exec) contractCall(fn *ssa.Function, key string, ctr *Contract, args []
 	if ctr.Variadic && len(args) != len(ctr.Params) {
 		panic(unsupported("variadic arity mismatch for %s", key))
 	}
+	// Interior pointers (into a struct field, a slice element or a local cell) cannot be handed to
+	// a callee whose contract is stated over objects of the pointee type: copy the pointee into a
+	// temporary object, pass that, and copy it back after the call (sound as long as the callee does
+	// not retain the pointer or reach the enclosing object another way - listed as an assumption).
+	type copyBack struct {
+		orig *Ptr
+		tmp  *Ptr
+	}
+	var backs []copyBack
+	args = append([]*Val(nil), args...)
+	for i, a := range args {
+		if a == nil || a.K != KPtr {
+			continue
+		}
+		if a.P.Kind == PHeap && len(a.P.Path) == 0 {
+			continue
+		}
+		t := ptrRootAt(a.P)
+		if _, isMutex := opaqueSort(t); isMutex {
+			continue
+		}
+		ref := x.alloc(st)
+		tmp := &Ptr{Kind: PHeap, Ref: ref, Root: t}
+		x.store(st, tmp, x.load(st, a.P))
+		backs = append(backs, copyBack{a.P, tmp})
+		args[i] = &Val{K: KPtr, T: a.T, P: tmp}
+		x.interiorArgs = true
+	}
+	defer func() {
+		for _, b := range backs {
+			x.store(st, b.orig, x.load(st, b.tmp))
+		}
+	}()
 	inst := map[string]*Val{}
 	bindingVals := x.bindingValues(st, fn, bindings)
 	savedCF := x.clauseFn
@@ -557,6 +590,21 @@ func (x *Exec) contractCall(fn *ssa.Function, key string, ctr *Contract, args []
 	old := st.clone()
 	// callee writes some components only in objects it allocates itself: remember old contents
 	calleeFresh := x.expandKeys(ctr.Fresh)
+	// the caller promised fresh-only writes for some components: the callee must promise the same
+	if x.spec == 0 && (len(x.rootFresh) > 0 || len(x.loopFresh) > 0) && !ctr.Pure {
+		var cw *WriteSet
+		if ctr.Trusted || fn == nil || len(fn.Blocks) == 0 || ctr.Ext || len(ctr.Modifies) > 0 {
+			cw = newWS()
+			x.contractWrites(ctr, fn, cw, map[*ssa.Function]bool{})
+		} else {
+			cw = x.effects(fn)
+		}
+		for _, k := range cw.sortedKeys() {
+			if x.freshActive(k) && !calleeFresh[k] {
+				x.oblige(st, "frame", "", "callee "+shortKey(x.P, key)+" may write "+compShort(k)+" of existing objects (no freshwrites in its contract)", "false", pos)
+			}
+		}
+	}
 	topBefore := st.allocTop
 	// effects
 	switch {
